@@ -222,7 +222,7 @@ def main(argv=None):
     meta["cuts"] = kmeta.get("cuts", []) + meta["cuts"]
     for o in m_obls:
         try:
-            res = o["run"](o, tier, seed)
+            res = o["run"](dict(o, _tier=tier), tier, seed)
         except Exception as e:  # engine defect => inconclusive, never success
             import traceback
             traceback.print_exc()
